@@ -366,7 +366,7 @@ func nextScanArgument(cmd string, args Arguments) (ScanOption, error) {
 			if err != nil {
 				return opt, err
 			}
-		case "Type":
+		case "TYPE":
 			var scanType string
 			scanType, err = nextStringArgument(cmd, "type", args)
 			if err != nil {
